@@ -41,6 +41,9 @@ type mSeries struct {
 	// opt: values that may or may not be stored at t where the statement leaves it open
 	// (never reported; used by C02 for commit-time out-of-order under the reject option).
 	opt map[int64]map[string]bool
+	// delRanges: every range a Delete requested for this series so far (known finding
+	// KF-ooo-after-delete: head tombstones also hide out-of-order samples appended LATER).
+	delRanges [][2]int64
 	hasInOrder bool
 	inOrderMax int64
 	lastVal    string // canonical value of the newest in-order sample
@@ -213,6 +216,7 @@ func (m *dbModel) delete(sk string, lo, hi int64) {
 		if sk != "" && k != sk {
 			continue
 		}
+		s.delRanges = append(s.delRanges, [2]int64{lo, hi})
 		for t := range s.samples {
 			if t >= lo && t <= hi {
 				if s.ooo[t] {
@@ -228,6 +232,15 @@ func (m *dbModel) delete(sk string, lo, hi int64) {
 			}
 		}
 	}
+}
+
+func (s *mSeries) inEarlierDelete(t int64) bool {
+	for _, r := range s.delRanges {
+		if t >= r[0] && t <= r[1] {
+			return true
+		}
+	}
+	return false
 }
 
 func (m *dbModel) total() int {
@@ -271,7 +284,7 @@ func (m *dbModel) key() string {
 			dts = append(dts, t)
 		}
 		sort.Slice(dts, func(i, j int) bool { return dts[i] < dts[j] })
-		fmt.Fprintf(&sb, "}d%v", dts)
+		fmt.Fprintf(&sb, "}d%v r%v", dts, s.delRanges)
 	}
 	return sb.String()
 }
